@@ -1,7 +1,7 @@
 """C04 — the AIR rejects any deviation from an operation's defined effect.
 Decided on the constraint polynomials extracted from /repo's AIR code by abstract interpretation (mirsym),
 restricted per opcode; the oracle is the repository's own specification (docs/src/design), parsed at run time."""
-import re
+import os, re
 from .mirutil import *
 from .mirsym import Poly, Sup, P, poly_str
 from . import opmodel, docspec
@@ -368,6 +368,57 @@ LATEX_DISCREPANCIES = {
 }
 
 
+def r2d_referenced_primitives(ctx, F):
+    """a section of u32_ops.md that refers to the element-validity primitive ("form a valid field element", link
+    #checking-element-validity) obliges the operation to carry that constraint; the constraint's form is parsed from the
+    primitive's own section with t_i := h_i and m := h_4"""
+    V = AirView(F)
+    path = os.path.join(docspec.DOCS, "stack", "u32_ops.md")
+    txt = open(path).read()
+    m = re.search(r"### Checking element validity(.*?)\n## ", txt, re.S)
+    if not m:
+        ctx.violation("doc-anchor|element-validity", "docs/src/design/stack/u32_ops.md", "section 'Checking element validity' not found")
+        return
+    blk = re.search(r">\s*\$\$(.*?)\$\$", m.group(1), re.S)
+    if not blk:
+        ctx.violation("doc-anchor|element-validity-formula", "docs/src/design/stack/u32_ops.md", "no constraint formula in 'Checking element validity'")
+        return
+    ftxt = blk.group(1).replace("v_{hi}", "vhi").replace("v_{lo}", "vlo")
+    H = lambda i: Poly.var("c%d" % (V.A.helpers + i))
+
+    def var(name, idx, primed):
+        if name == "m":
+            return H(4)
+        if name == "vhi":
+            return H(3) * Poly.const(1 << 16) + H(2)
+        if name == "vlo":
+            return H(1) * Poly.const(1 << 16) + H(0)
+        raise docspec.LatexError("unknown symbol %s" % name)
+    try:
+        res = docspec.parse_constraint_block(ftxt, var)
+    except docspec.LatexError as e:
+        ctx.violation("doc-unparsed|element-validity", "docs/src/design/stack/u32_ops.md", str(e))
+        return
+    want = res[0][1]
+    users = []
+    for sec in docspec.sections():
+        if sec.file.endswith("u32_ops.md") and any("#checking-element-validity" in l for l in sec.lines):
+            users.append(sec)
+    ctx.floor("sections-requiring-element-validity", len(users), 3)
+    for sec in users:
+        for base, n in docspec.params_of(sec.name, sec):
+            v = variant_of(base, n, V.upper)
+            ctx.inst(key="element-validity|%s" % v, nontrivial=True)
+            polys = [p for p in V.all_polys(v) if isinstance(p, Poly)]
+            ok = any(unit_multiple(p, want) for p in polys)
+            ctx.oblig(ok)
+            if not ok:
+                ctx.violation("element-validity|%s" % v, "%s:%d" % (sec.file, sec.line),
+                              "%s: the documentation requires the limbs h0..h3 to form a valid field element (constraint %s = 0 with m in h4), but no transition constraint restricted to %s has this form: "
+                              "the prover may encode the 64-bit result plus the field modulus" % (v, V.pretty(want), v))
+    # and conversely no other u32 operation is documented to need it: nothing to check
+
+
 def r2c_current_row(ctx, F):
     """current-row conditions: binary operands and ASSERT (from the parsed specification formulas without next-row cells)"""
     # covered by r2b (the formulas s_0^2 - s_0 = 0 etc. are parsed from the docs); here: the composite top_binary flag
@@ -603,6 +654,7 @@ def run(ctx, F):
     ctx.run_rule("C04-R3", "flag_X(opcode_Y) = delta_XY for all 89 opcodes x all flag accessors; opcode table injective and 7-bit", r3_flags, F)
     ctx.run_rule("C04-R2", "per (operation, next-row stack cell): documented copy/shift cells have the exact constraint s_i' - s_j; operation-specific cells are fixed by a constraint linear in the cell with unit coefficient (non-trivial = operation-specific cell)", r2_determinacy, F)
     ctx.run_rule("C04-R2b", "every constraint formula of docs/design/stack/*.md that parses is present (up to a unit) among the constraints restricted to its operation", r2b_latex, F)
+    ctx.run_rule("C04-R2d", "operations whose documentation refers to the element-validity primitive carry that constraint (form parsed from the primitive's section)", r2d_referenced_primitives, F)
     ctx.run_rule("C04-R2c", "operations whose specification demands a binary top element have s0^2-s0 active", r2c_current_row, F)
     ctx.run_rule("C04-R4", "stack depth / overflow bookkeeping constraints in canonical form per shift class", r4_overflow, F)
     ctx.run_rule("C04-R5", "range-checker transition roots {0,3^0..3^7} and the b_range LogUp identity", r5_range, F)
